@@ -21,8 +21,7 @@ def bytes_cnt_summary(real, max_bytes):
             if bool(value >= (1 << (8 * max_bytes))):
                 from .core import BoundsExceeded
                 raise BoundsExceeded("value outside the domain of the verified summary")
-        if bool(value == 0):
-            return byte_cnt or 1
+        # (value == 0 needs no case of its own: the count below is 1 for it, which is what the real function returns)
         cnt = 1
         for i in range(1, max_bytes):
             cnt = cnt + If(value >= (1 << (8 * i)), 1, 0)
